@@ -17,7 +17,7 @@ RULE = ('a random skeleton of mapping paths (depth <=4); 2-5 stages each writing
         'a further key, directly or below a tagged wrapper; non-trivial = a leaf path with >=3 writers of >=2 distinct priorities, or a '
         'container tag >=2 levels above a leaf it decides; distinct = hash of the case')
 BUDGET = {'quick': (4, 600), 'thorough': (16, 10000)}
-ASSUMPTIONS = ['nested priority tags with different values on one root-to-leaf path are not generated (statement does not rank them)',
+ASSUMPTIONS = ['a priority tag below a tagged container is overridden by the outer one ("a priority tag on a container applies to everything below it")',
                'lists are atomic values: no tags inside list leaves']
 
 KEYS = ['a', 'b', 'c', '_u', 0, 1]
@@ -48,6 +48,10 @@ def _stage(draw, skel, stage_idx, counter, tagged_above=False, top=True, pool=Fa
         if not tagged_above and draw(st.integers(0, 3)) == 0:
             fl['prio'] = draw(st.sampled_from([1, -1]))
             tagged = True
+        elif tagged_above and draw(st.integers(0, 9)) == 0:
+            # a tag below a tagged container: "a priority tag on a container applies to everything below it" - the outer one decides
+            fl['prio'] = draw(st.sampled_from([1, -1]))
+            fl['nested'] = True
         if draw(st.integers(0, 2)) == 0:
             fl['md'] = {draw(S.MD_KEYS): f's{stage_idx}.{counter[0]}'}
             fl['mdstyle'] = draw(st.sampled_from(['braces', 'hex']))
@@ -87,9 +91,10 @@ def _case(draw):
         d = draw(_stage(skel, i + 1, counter, False, True, pool))
         if draw(st.integers(0, 5)) == 0:
             d['prio'] = draw(st.sampled_from([1, -1]))
-            # root tag: remove inner priority tags to keep "one tag per path"
+            # root tag: mostly remove the inner priority tags ("one tag per path"); where they stay, the root tag decides
+            keep_inner = draw(st.integers(0, 3)) == 0
             for p, nn in tdoc.walk(d):
-                if p:
+                if p and not keep_inner:
                     nn.pop('prio', None)
         docs.append(d)
     if draw(st.integers(0, 2)) == 0:
@@ -155,6 +160,14 @@ def run_case(case):
     labels = {f'stages={len(docs)}'}
     if case.get('pool'):
         labels.add('restated-values')
+    def _nested(n, above=False):
+        here = n.get('prio') is not None
+        if here and above:
+            return True
+        kids = [v for _, v in n['items']] if n['t'] == 'map' else []
+        return any(_nested(k, above or here) for k in kids)
+    if any(_nested(d) for d in docs):
+        labels.add('priority-tag-below-a-tagged-container')
     if any(nn['t'] == 'alias' for d in docs for _, nn in tdoc.walk(d)):
         labels.add('yaml-alias-of-a-mapping' if any(nn.get('anchor') and nn['t'] == 'map' for d in docs for _, nn in tdoc.walk(d)) else 'yaml-alias-of-a-scalar')
         if any(k == 'zal' and v['t'] == 'map' for d in docs for k, v in d['items']):
